@@ -316,4 +316,170 @@ theorem read_output_values_index (m r : Mesh1 Float Float) (prec n : Nat) (hm : 
     rw [Array.getElem?_eq_getElem hin] at this
     exact this
 
+/-! ## 5. the file round trip to the printed precision -/
+
+/-- `ReadBack x prec y`: `y` is a double that differs from the finite double `x` by at most half a
+unit of the last printed decimal plus half an ulp of `y` — the conclusion of the token theorems
+`roundtrip_value` / `roundtrip_value_zero` of C19G: either the printed text is not `±0.00…0` and
+`y = ± scaleB (ofNat m) e` with a 53-bit `m` and `|± m·2^e − x| ≤ 1/(2·10^prec) + 2^e/2`, or the
+text is `±0.00…0`, `y = ±0.0` and `|x| ≤ 1/(2·10^prec)`. -/
+def ReadBack (x : Float) (prec : Nat) (y : Float) : Prop :=
+  (printedNum (decode x) prec ≠ 0 ∧ ∃ (m : Nat) (e : Int), 2 ^ 52 ≤ m ∧ m ≤ 2 ^ 53 ∧
+      y = withSign (decode x) (Float.scaleB (Float.ofNat m) e) ∧
+      |sgn (decode x) * ((m : ℚ) * 2 ^ e) - val (decode x)| ≤ 1 / (2 * 10 ^ prec) + 2 ^ e / 2) ∨
+  (printedNum (decode x) prec = 0 ∧ y = withSign (decode x) 0.0 ∧
+      |(0 : ℚ) - val (decode x)| ≤ 1 / (2 * 10 ^ prec))
+
+/-- `ReadBackExact x prec y`: `y` is `± scaleB (ofNat m) e` with `± m·2^e` EQUAL to the exact value
+of `x` (or `±0.0` when `x` is a zero) — the conclusion of `roundtrip_value_exact` /
+`roundtrip_value_exact_zero`. -/
+def ReadBackExact (x : Float) (y : Float) : Prop :=
+  ((decode x).2.1 ≠ 0 ∧ ∃ (m : Nat) (e : Int), 2 ^ 52 ≤ m ∧ m ≤ 2 ^ 53 ∧
+      y = withSign (decode x) (Float.scaleB (Float.ofNat m) e) ∧
+      sgn (decode x) * ((m : ℚ) * 2 ^ e) = val (decode x)) ∨
+  ((decode x).2.1 = 0 ∧ y = withSign (decode x) 0.0 ∧ val (decode x) = 0)
+
+/-- the token theorems of C19G in one statement -/
+theorem token_roundtrip (x : Float) (prec : Nat) (hn : x.isNaN = false) (hi : x.isInf = false)
+    (hp : 10 ^ prec ≤ 2 ^ 2198) : ReadBack x prec (Fmt.parse (Fmt.fixed x prec)) := by
+  by_cases hN : printedNum (decode x) prec = 0
+  · exact Or.inr ⟨hN, roundtrip_value_zero x prec hn hi hN⟩
+  · exact Or.inl ⟨hN, roundtrip_value x prec hn hi hN hp⟩
+
+theorem token_roundtrip_exact (x : Float) (prec : Nat) (hn : x.isNaN = false)
+    (hi : x.isInf = false) (hdiv : (decode x).2.2 ∣ (decode x).2.1 * 10 ^ prec) :
+    ReadBackExact x (Fmt.parse (Fmt.fixed x prec)) := by
+  by_cases hz : (decode x).2.1 = 0
+  · exact Or.inr ⟨hz, roundtrip_value_exact_zero x prec hn hi hz⟩
+  · exact Or.inl ⟨hz, roundtrip_value_exact x prec hn hi hz hdiv⟩
+
+/-- `file_roundtrip`: writing a well-shaped mesh `m` with `prec` decimals (`prec ≤ 661`) and reading
+the file into a mesh `r` with the same `nvars` reproduces every FINITE node and every FINITE
+variable to the printed precision (`ReadBack`: within half a unit of the last printed decimal plus
+half an ulp of the value read). -/
+theorem file_roundtrip (m r : Mesh1 Float Float) (prec n : Nat) (hm : m.Shaped n) (hr : r.RowsOk)
+    (hnv : r.nvars = m.nvars) (hp : 10 ^ prec ≤ 2 ^ 2198) :
+    (∀ i (hi : i < m.nodes.size), m.nodes[i].isNaN = false → m.nodes[i].isInf = false →
+      ∃ y, (Fmt.read r (Fmt.output m prec)).nodes[i]? = some y ∧ ReadBack m.nodes[i] prec y) ∧
+    (∀ i j (hi : i < m.vars.size) (hj : j < m.vars[i].size),
+      m.vars[i][j].isNaN = false → m.vars[i][j].isInf = false →
+      ∃ y, (Fmt.read r (Fmt.output m prec)).vars[i]?.bind (·[j]?) = some y ∧
+        ReadBack m.vars[i][j] prec y) := by
+  obtain ⟨h1, h2⟩ := read_output_values m r prec n hm hr hnv
+  exact ⟨fun i hi hN hI => ⟨_, h1 i hi, token_roundtrip _ prec hN hI hp⟩,
+    fun i j hi hj hN hI => ⟨_, h2 i j hi hj, token_roundtrip _ prec hN hI hp⟩⟩
+
+/-- `file_roundtrip_exact`: every finite node / variable whose exact value has at most `prec`
+decimals (`den ∣ num · 10^prec`; e.g. the integer-valued data and dyadic nodes of property C19 with
+enough decimals) is reproduced EXACTLY by writing and reading the file. -/
+theorem file_roundtrip_exact (m r : Mesh1 Float Float) (prec n : Nat) (hm : m.Shaped n)
+    (hr : r.RowsOk) (hnv : r.nvars = m.nvars) :
+    (∀ i (hi : i < m.nodes.size), m.nodes[i].isNaN = false → m.nodes[i].isInf = false →
+      (decode m.nodes[i]).2.2 ∣ (decode m.nodes[i]).2.1 * 10 ^ prec →
+      ∃ y, (Fmt.read r (Fmt.output m prec)).nodes[i]? = some y ∧ ReadBackExact m.nodes[i] y) ∧
+    (∀ i j (hi : i < m.vars.size) (hj : j < m.vars[i].size),
+      m.vars[i][j].isNaN = false → m.vars[i][j].isInf = false →
+      (decode m.vars[i][j]).2.2 ∣ (decode m.vars[i][j]).2.1 * 10 ^ prec →
+      ∃ y, (Fmt.read r (Fmt.output m prec)).vars[i]?.bind (·[j]?) = some y ∧
+        ReadBackExact m.vars[i][j] y) := by
+  obtain ⟨h1, h2⟩ := read_output_values m r prec n hm hr hnv
+  exact ⟨fun i hi hN hI hd => ⟨_, h1 i hi, token_roundtrip_exact _ prec hN hI hd⟩,
+    fun i j hi hj hN hI hd => ⟨_, h2 i j hi hj, token_roundtrip_exact _ prec hN hI hd⟩⟩
+
+/-- `file_roundtrip_nonfinite`: a NaN variable is read back as `0.0 / 0.0`, an infinite one as
+`±1.0 / 0.0` (the same for nodes) — the spellings `NaN`, `inf`, `-inf` are single tokens too. -/
+theorem file_roundtrip_nonfinite (m r : Mesh1 Float Float) (prec n : Nat) (hm : m.Shaped n)
+    (hr : r.RowsOk) (hnv : r.nvars = m.nvars) :
+    (∀ i (hi : i < m.nodes.size),
+      (m.nodes[i].isNaN = true →
+        (Fmt.read r (Fmt.output m prec)).nodes[i]? = some (0.0 / 0.0)) ∧
+      (m.nodes[i].isNaN = false → m.nodes[i].isInf = true →
+        (Fmt.read r (Fmt.output m prec)).nodes[i]?
+          = some (if m.nodes[i] < 0 then -1.0 / 0.0 else 1.0 / 0.0))) ∧
+    (∀ i j (hi : i < m.vars.size) (hj : j < m.vars[i].size),
+      (m.vars[i][j].isNaN = true →
+        (Fmt.read r (Fmt.output m prec)).vars[i]?.bind (·[j]?) = some (0.0 / 0.0)) ∧
+      (m.vars[i][j].isNaN = false → m.vars[i][j].isInf = true →
+        (Fmt.read r (Fmt.output m prec)).vars[i]?.bind (·[j]?)
+          = some (if m.vars[i][j] < 0 then -1.0 / 0.0 else 1.0 / 0.0))) := by
+  obtain ⟨h1, h2⟩ := read_output_values m r prec n hm hr hnv
+  refine ⟨fun i hi => ⟨fun hN => ?_, fun hN hI => ?_⟩, fun i j hi hj => ⟨fun hN => ?_, fun hN hI => ?_⟩⟩
+  · rw [h1 i hi, parse_fixed_nan _ prec hN]
+  · rw [h1 i hi, parse_fixed_inf _ prec hN hI]
+  · rw [h2 i j hi hj, parse_fixed_nan _ prec hN]
+  · rw [h2 i j hi hj, parse_fixed_inf _ prec hN hI]
+
+/-! ## 6. the hypotheses are satisfiable; examples -/
+
+/-- a freshly constructed mesh (`Mesh1D::new`) is well shaped — the natural receiving mesh -/
+theorem new_shaped (nodes : Array Float) (nvars : Nat) :
+    (Mesh1.new nodes nvars : Mesh1 Float Float).Shaped nodes.size ∧
+      (Mesh1.new nodes nvars : Mesh1 Float Float).nvars = nvars := by
+  refine ⟨⟨rfl, by simp [Mesh1.new], ?_⟩, rfl⟩
+  intro i hi
+  simp [Mesh1.new]
+
+/-- the empty 2-variable mesh can receive a file -/
+example : (Mesh1.new #[] 2 : Mesh1 Float Float).RowsOk ∧ (Mesh1.new #[] 2 : Mesh1 Float Float).nvars = 2 :=
+  ⟨(new_shaped #[] 2).1.2.2, rfl⟩
+
+/-- the text of a 3-node, 2-variable mesh written with two decimals -/
+def exampleText : String := "0.00 1.00 2.00 \n0.50 3.00 -4.00 \n1.00 NaN inf \n"
+
+/-- its tokens, through the tokeniser of `Fmt.read` -/
+theorem exampleText_tokens : tokens exampleText
+    = ["0.00", "1.00", "2.00", "0.50", "3.00", "-4.00", "1.00", "NaN", "inf"] :=
+  tokenise_lines exampleText
+    [["0.00", "1.00", "2.00"], ["0.50", "3.00", "-4.00"], ["1.00", "NaN", "inf"]]
+    (by decide) (by decide)
+
+/-- reading it into an empty 2-variable mesh: three nodes, node 1 is `parse "0.50"`, variable 1 of
+node 1 is `parse "-4.00"`, variable 0 of node 2 is a NaN -/
+example :
+    (Fmt.read (Mesh1.new #[] 2) exampleText).Shaped 3 ∧
+    (Fmt.read (Mesh1.new #[] 2) exampleText).nodes[1]? = some (Fmt.parse "0.50") ∧
+    (Fmt.read (Mesh1.new #[] 2) exampleText).vars[1]?.bind (·[1]?) = some (Fmt.parse "-4.00") ∧
+    (Fmt.read (Mesh1.new #[] 2) exampleText).vars[2]?.bind (·[0]?) = some (0.0 / 0.0) := by
+  have hr : (Mesh1.new #[] 2 : Mesh1 Float Float).RowsOk := (new_shaped #[] 2).1.2.2
+  have hlen : (tokens exampleText).length = 3 * ((Mesh1.new #[] 2 : Mesh1 Float Float).nvars + 1) := by
+    rw [exampleText_tokens]; rfl
+  refine ⟨(read_shape _ hr _ 3 hlen).2, ?_, ?_, ?_⟩
+  · rw [read_nodes _ _ 3 hlen 1 (by decide), exampleText_tokens]; rfl
+  · rw [read_vars _ hr _ 3 hlen 1 1 (by decide) (by decide), exampleText_tokens]; rfl
+  · rw [read_vars _ hr _ 3 hlen 2 0 (by decide) (by decide), exampleText_tokens]
+    exact congrArg some parse_NaN
+
+/-- a concrete 3-node, 2-variable mesh -/
+def exampleMesh : Mesh1 Float Float := ⟨2, #[0.0, 0.5, 1.0], #[#[1.0, 2.0], #[3.0, 4.0], #[5.0, 6.0]]⟩
+
+theorem exampleMesh_shaped : exampleMesh.Shaped 3 := by
+  refine ⟨rfl, rfl, ?_⟩
+  intro i hi
+  have hi3 : i < 3 := hi
+  rcases i with _ | _ | _ | i
+  · rfl
+  · rfl
+  · rfl
+  · omega
+
+/-- the token list of the file written for it, row-major -/
+example (prec : Nat) : tokens (Fmt.output exampleMesh prec)
+    = [Fmt.fixed 0.0 prec, Fmt.fixed 1.0 prec, Fmt.fixed 2.0 prec,
+       Fmt.fixed 0.5 prec, Fmt.fixed 3.0 prec, Fmt.fixed 4.0 prec,
+       Fmt.fixed 1.0 prec, Fmt.fixed 5.0 prec, Fmt.fixed 6.0 prec] := by
+  rw [output_tokens exampleMesh prec 3 exampleMesh_shaped]
+  rfl
+
+/-- … and what is read back from it into an empty 2-variable mesh -/
+example (prec : Nat) :
+    (Fmt.read (Mesh1.new #[] 2) (Fmt.output exampleMesh prec)).Shaped 3 ∧
+    (Fmt.read (Mesh1.new #[] 2) (Fmt.output exampleMesh prec)).nodes[1]?
+      = some (Fmt.parse (Fmt.fixed 0.5 prec)) ∧
+    (Fmt.read (Mesh1.new #[] 2) (Fmt.output exampleMesh prec)).vars[2]?.bind (·[1]?)
+      = some (Fmt.parse (Fmt.fixed 6.0 prec)) := by
+  have hr : (Mesh1.new #[] 2 : Mesh1 Float Float).RowsOk := (new_shaped #[] 2).1.2.2
+  have h := read_output_values exampleMesh (Mesh1.new #[] 2) prec 3 exampleMesh_shaped hr rfl
+  exact ⟨(read_output_shape exampleMesh _ prec hr rfl).2, h.1 1 (by decide),
+    h.2 2 1 (by decide) (by decide)⟩
+
 end Ohsl.Props.C19
